@@ -155,7 +155,117 @@ func init() {
 				}
 				r.Sample(map[string]interface{}{"lengths": lens, "pattern": "identity every 7th, duplicate pointers every 5th, 4 representations"})
 			}})
+			us = append(us, core.Unit{Name: "x/y chosen at the reduction and limb boundaries", Run: c11Boundaries})
 			return us
 		},
 	})
+}
+
+// elementWithRatio: a group element (reference form) whose x/y equals v, if one exists. From a*x^2+y^2 =
+// 1+d*x^2*y^2 with x = v*y and t = y^2:  d*v^2*t^2 - (a*v^2+1)*t + 1 = 0.
+func elementWithRatio(v *big.Int) (ref.Pt, bool) {
+	P := ref.P
+	if v.Sign() == 0 {
+		return ref.Identity(), true
+	}
+	v2 := ref.MulP(v, v)
+	qa := ref.MulP(ref.D, v2)
+	qb := ref.AddP(ref.MulP(ref.A, v2), big.NewInt(1))
+	disc := ref.SubP(ref.MulP(qb, qb), ref.MulP(big.NewInt(4), qa))
+	sq := new(big.Int).ModSqrt(disc, P)
+	if sq == nil {
+		return ref.Pt{}, false
+	}
+	inv2a := ref.InvP(ref.MulP(big.NewInt(2), qa))
+	for _, s := range []*big.Int{sq, ref.SubP(new(big.Int), sq)} {
+		t := ref.MulP(ref.AddP(qb, s), inv2a)
+		y := new(big.Int).ModSqrt(t, P)
+		if y == nil || y.Sign() == 0 {
+			continue
+		}
+		pt := ref.Pt{X: ref.MulP(v, y), Y: y, Z: big.NewInt(1)}
+		if !ref.OnCurve(pt) {
+			continue
+		}
+		// a valid Banderwagon element: its compressed form decodes (subgroup predicate of the reference)
+		cb := ref.Compress(pt)
+		if q, ok := ref.Decompress(cb[:]); ok && ref.SameClass(q, pt) {
+			return pt, true
+		}
+	}
+	return ref.Pt{}, false
+}
+
+// c11Boundaries: elements constructed so that x/y (as an integer below p) sits at k*r-d, k*r+d (p is about
+// 4r: the reduction of the little-endian value subtracts r up to four times), at the 64-bit limb boundaries
+// and next to 0 and p; for every target the nearest 3 values above and below that are x/y of some element.
+func c11Boundaries(ctx *core.Ctx, r *core.Result) {
+	needRef()
+	var targets []*big.Int
+	for k := int64(1); k <= 4; k++ {
+		kr := new(big.Int).Mul(ref.R, big.NewInt(k))
+		if kr.Cmp(ref.P) < 0 {
+			targets = append(targets, kr)
+		}
+	}
+	for _, e := range []uint{64, 128, 192, 252, 253, 254} {
+		targets = append(targets, pow2(e))
+	}
+	targets = append(targets, big.NewInt(0), new(big.Int).Set(ref.P))
+	// r-aligned values whose low part is tiny compared with a limb (k*r - d with d < 2^188 leaves the top limb of
+	// the reduced value equal to r's top limb)
+	for k := int64(1); k <= 4; k++ {
+		for _, e := range []uint{64, 128, 187, 189} {
+			targets = append(targets, new(big.Int).Sub(new(big.Int).Mul(ref.R, big.NewInt(k)), pow2(e)))
+		}
+	}
+	per := 3
+	if ctx.Thorough() {
+		per = 12
+	}
+	seen := map[string]bool{}
+	for _, t := range targets {
+		for _, dir := range []int64{1, -1} {
+			found := 0
+			for d := int64(0); d < 400 && found < per; d++ {
+				v := new(big.Int).Add(t, big.NewInt(dir*d))
+				if v.Sign() < 0 || v.Cmp(ref.P) >= 0 || seen[v.Text(16)] {
+					continue
+				}
+				pt, ok := elementWithRatio(v)
+				if !ok {
+					continue
+				}
+				seen[v.Text(16)] = true
+				found++
+				want := ref.MapToField(pt)
+				if ref.MulP(pt.X, ref.InvP(pt.Y)).Cmp(v) != 0 {
+					r.ToolError = "elementWithRatio built an element with another ratio"
+					return
+				}
+				for rep := 0; rep < nRepr; rep++ {
+					e := reprOf(elFromRef(pt), rep)
+					in := fmt.Sprintf("element with x/y = %s (target %s%+d), representation %d", v.Text(16), t.Text(16), dir*d, rep)
+					got := dirtyFr()
+					if !guard(r, "c11.panic", "banderwagon.Element.MapToScalarField", in, func() { e.MapToScalarField(&got) }) {
+						continue
+					}
+					r.Evals++
+					r.Nontrivial++
+					if frToBig(got).Cmp(want) != 0 {
+						vio(r, "c11.value", "banderwagon.Element.MapToScalarField", in, "LE(x/y) mod r = "+want.Text(16), frToBig(got).Text(16))
+					}
+					b := dirtyFr()
+					res := []*fr.Element{&b}
+					var err error
+					if guard(r, "c11.panic", "banderwagon.BatchMapToScalarField", in, func() { err = banderwagon.BatchMapToScalarField(res, []*banderwagon.Element{&e}) }) {
+						if err != nil || frToBig(b).Cmp(want) != 0 {
+							vio(r, "c11.batch", "banderwagon.BatchMapToScalarField", in, "LE(x/y) mod r = "+want.Text(16), fmt.Sprint(frToBig(b).Text(16), " err=", err))
+						}
+					}
+				}
+			}
+		}
+	}
+	r.Sample(map[string]interface{}{"targets": len(targets), "constructed_elements": len(seen)})
 }
